@@ -75,6 +75,7 @@ class Index:
     cardinality = 1
     enabled = True
     prefix = b""
+    has_timestamp = True
 
     def __init__(self):
         self.hits = self.misses = 0
@@ -119,36 +120,36 @@ class Index:
                 compiled_matches.append(self.to_key(match))
             except ValueError:
                 pass
+        if not self.has_timestamp:
+            # keys of this index carry no timestamp; the residual matcher checks the window
+            since = until = None
         if since is not None:
             since = since.to_bytes(4, "big")
         if until is not None:
             until = until.to_bytes(4, "big")
-            add_time = b"\x00%s\x00" % until
-        else:
-            add_time = b""
 
         prev = cursor.prev
         get_key = cursor.key
+        # every timestamped key is <match>\x00<4 bytes created_at>\x00<32 bytes id>
+        suffix_len = 37
+        separator = b"\x00" if self.has_timestamp else b""
 
         if compiled_matches:
             matchiter = iter(compiled_matches)
 
             def next_match():
                 try:
-                    match = next(matchiter)
+                    match = next(matchiter) + separator
                 except StopIteration:
                     return None, None
-                skipped = cursor.set_range(match + add_time + b"\xff")
+                # seek just past the newest wanted key of exactly this match
+                skipped = cursor.set_range(
+                    match + (until or b"\xff\xff\xff\xff") + b"\x00" + (b"\xff" * 33)
+                )
                 if skipped:
                     prev()
                 return match, skipped
 
-            if len(compiled_matches) > 1:
-                stop = compiled_matches[-1]
-            else:
-                stop = self.prefix
-            if since:
-                stop += b"\x00" + since
             match, skipped = next_match()
         else:
             match = None
@@ -166,12 +167,20 @@ class Index:
             key = bytes(get_key())
 
             if match is not None:
-                matchlen = len(match)
+                seen = set() if len(compiled_matches) > 1 else None
                 while match:
-                    # breakpoint()
+                    matchlen = len(match)
+                    if (
+                        separator
+                        and key[:matchlen] == match
+                        and len(key) != matchlen + suffix_len
+                    ):
+                        # a longer value that merely starts with this match
+                        if not prev():
+                            break
+                        key = bytes(get_key())
+                        continue
                     ts = key[-37:-33]
-                    # print(key, match, ts, since, until)
-
                     if (
                         key[:matchlen] != match
                         or (since and ts < since)
@@ -181,20 +190,20 @@ class Index:
 
                         if match is None:
                             break
-                        else:
-                            matchlen = len(match)
 
                         if skipped:
                             key = bytes(get_key())
                             continue
                         else:
                             break
-                    elif key < stop:
-                        break
 
                     event_id = key[-32:]
                     if event_id in events:
-                        yield event_id
+                        if seen is None:
+                            yield event_id
+                        elif event_id not in seen:
+                            seen.add(event_id)
+                            yield event_id
                     if not prev():
                         break
                     key = bytes(get_key())
@@ -219,6 +228,7 @@ class Index:
 class IdIndex(Index):
     prefix = b"\x00"
     cardinality = 1000
+    has_timestamp = False
 
     def to_key(self, value) -> bytes:
         return self.prefix + bytes_from_hex(value)
